@@ -1,4 +1,4 @@
-import LyModel.YangStr.LemmasArg
+import LyModel.YangStr.LemmasTree
 /-!
 # C10 — printed schemas re-parse to the same module: the string side
 
@@ -75,11 +75,11 @@ theorem yang_text_roundtrip_partial (fmt : Bool) (level flags ind k : Nat) (s re
   cases hq : flagSingleQuoted flags with
   | true =>
     simp only [hq, if_true] at hok ⊢
-    exact text_sq_getArgument fmt level flags ind s rest hq (ychars_of_isYangText s hs) hok hr k
+    exact text_sq_getArgument false fmt level flags ind s rest hq (ychars_of_isYangText s hs) hok hr k
   | false =>
     simp only [hq, Bool.false_eq_true, if_false] at hok ⊢
-    exact text_dq_getArgument fmt level flags ind s rest hq (ychars_of_isYangText s hs) hok.1
-      (noSpNl_of_not_infix s hok.2.1) (fun h => noNlSp_of_not_infix s (hok.2.2 h)) hind hr k
+    exact text_dq_getArgument false fmt level flags ind s rest hq (ychars_of_isYangText s hs) hok.1
+      (noSpNl_of_not_infix s hok.2.1) (fun h => noNlSp_of_not_infix s (hok.2.2 h)) (fun _ => hind) hr k
 
 -- non-vacuity: a multi-line description (block style, level 2) with quotes, a tab, indented continuation lines
 example : ∃ ind', getArgument false 15 (printTextArg true 2 0 [97, 34, 10, 32, 32, 98, 9, 10, 10, 0xc3, 0xa9, 39] ++ (spaces 0 ++ [59])) =
@@ -152,5 +152,76 @@ theorem yang_text_roundtrip_fails_F51 :
       .ok { word := some [97, 10, 32, 32, 32, 98], flags := 256, ind := 5, rest := [59] } := by rfl
   rw [this] at e
   simp at e
+
+/-! ## `yprp_stmt` ↔ `parse_ext_substmt`: generic statement trees
+
+`WfStmts ss` (LemmasTree): every keyword lexes as itself (`KwOk`, and `KwBareOk` where `;` follows it directly: a
+YANG keyword without argument must be `input`/`output`, the printer writes `leaf;` and `get_keyword` wants a separator
+after `leaf`); every argument is absent, or unquoted and able to stand without quotes (`UnquotedOk`), or double-quoted
+without CR and without a blank before a newline (F50, F5), or single-quoted without a newline (F51).  Extension-instance
+substatements are always printed in block style, so F35 does not occur here. -/
+
+/-- The statements `ss` (with all their substatements) printed by `yprp_stmt` at any level inside a block, read by the
+    substatement loop of `parse_ext_substmt` with enough fuel, come back as exactly `ss` — keywords, arguments, quoting
+    flags and tree shape — and the loop stops behind the closing brace. -/
+theorem stmt_tree_roundtrip (fmt : Bool) (l ind depth n f : Nat) (ss : List Stmt) (rest : Bytes)
+    (hwf : WfStmts ss) (hd : 0 < depth) (hh : depth + heightL ss ≤ 500) (hf : needL ss ≤ f) :
+    ∃ ind', parseStmt.parseChildren f ind depth (10 :: (printStmts fmt l ss ++ (spaces n ++ 125 :: rest))) =
+      .ok (ss, ind', depth - 1, rest) :=
+  qstmts_all ss fmt l ind depth n f rest hwf hd hh hf
+
+/-- the same for one statement, entered as `parse_ext_substmt` is: after its keyword -/
+theorem stmt_roundtrip (fmt : Bool) (l ind depth f : Nat) (s : Stmt) (rest : Bytes)
+    (hwf : WfStmt s) (hh : depth + height s ≤ 500) (hf : need s ≤ f) :
+    ∃ ind', parseStmt f (kwOf s) ind depth (afterKw fmt l s rest) = .ok (s, ind', depth, 10 :: rest) :=
+  pstmt_all s fmt l ind depth f rest hwf hh hf
+
+/-! non-vacuity: `e:x "a<LF>b" { type string; e:x; units 'it''s'; }` -/
+
+theorem kwok_type : KwOk [116, 121, 112, 101] := by
+  refine ⟨⟨116, _, rfl, by decide⟩, ?_⟩
+  intro ind depth sep r hsep
+  refine ⟨Tok.kw, ind + 4, by decide, ?_⟩
+  rcases hsep with rfl | rfl <;>
+    simp [kwAt, matchKw, yangKwTrie, walkAlts, stripPrefix, isAlnum, Utf8.rd]
+
+theorem kwok_units : KwOk [117, 110, 105, 116, 115] := by
+  refine ⟨⟨117, _, rfl, by decide⟩, ?_⟩
+  intro ind depth sep r hsep
+  refine ⟨Tok.kw, ind + 5, by decide, ?_⟩
+  rcases hsep with rfl | rfl <;>
+    simp [kwAt, matchKw, yangKwTrie, walkAlts, stripPrefix, isAlnum, Utf8.rd]
+
+theorem kwok_ex : KwOk [101, 58, 120] := by
+  have h58 : ∀ cs, Utf8.getUtf8 (58 :: cs) = some (58, 1) := fun cs => getUtf8_ascii 58 cs (by decide) (by decide)
+  have h120 : ∀ cs, Utf8.getUtf8 (120 :: cs) = some (120, 1) := fun cs => getUtf8_ascii 120 cs (by decide) (by decide)
+  refine ⟨⟨101, _, rfl, by decide⟩, ?_⟩
+  intro ind depth sep r hsep
+  refine ⟨Tok.ext, ind + 3, by decide, ?_⟩
+  rcases hsep with rfl | rfl <;>
+    simp [kwAt, matchKw, yangKwTrie, walkAlts, stripPrefix, isAlnum, Utf8.rd, extLoop, h58, h120, isIdentStart] <;> omega
+
+theorem kwbare_ex : KwBareOk [101, 58, 120] := by
+  have h58 : ∀ cs, Utf8.getUtf8 (58 :: cs) = some (58, 1) := fun cs => getUtf8_ascii 58 cs (by decide) (by decide)
+  have h120 : ∀ cs, Utf8.getUtf8 (120 :: cs) = some (120, 1) := fun cs => getUtf8_ascii 120 cs (by decide) (by decide)
+  intro ind depth r
+  refine ⟨Tok.ext, ind + 3, by decide, ?_⟩
+  simp [kwAt, matchKw, yangKwTrie, walkAlts, stripPrefix, isAlnum, Utf8.rd, extLoop, h58, h120, isIdentStart]
+
+def exampleTree : List Stmt :=
+  [.mk [101, 58, 120] (some [97, 10, 98]) LYS_DOUBLEQUOTED
+    [.mk [116, 121, 112, 101] (some [115, 116, 114, 105, 110, 103]) 0 [],
+     .mk [101, 58, 120] none 0 [],
+     .mk [117, 110, 105, 116, 115] (some [105, 116, 39, 39, 115]) LYS_SINGLEQUOTED []]]
+
+theorem exampleTree_wf : WfStmts exampleTree := by
+  refine ⟨⟨kwok_ex, Or.inr (Or.inl ⟨rfl, by decide, by decide, by decide⟩), ?_⟩, trivial⟩
+  refine ⟨⟨kwok_type, Or.inl ⟨rfl, ⟨by decide, by decide, by decide, by decide⟩⟩, trivial⟩, ?_⟩
+  refine ⟨⟨kwok_ex, ⟨rfl, fun _ => kwbare_ex⟩, trivial⟩, ?_⟩
+  exact ⟨⟨kwok_units, Or.inr (Or.inr ⟨rfl, by decide, by decide⟩), trivial⟩, trivial⟩
+
+example : ∃ ind', parseStmt.parseChildren 10 4 1 (10 :: (printStmts true 1 exampleTree ++ (spaces 0 ++ 125 :: [10]))) =
+    .ok (exampleTree, ind', 0, [10]) :=
+  stmt_tree_roundtrip true 1 4 1 0 10 exampleTree [10] exampleTree_wf (by decide) (by decide) (by decide)
 
 end LyModel.Props.C10
